@@ -136,6 +136,9 @@ def gen_mixed(rng, nops=40, sessions=1, fail_rate=0.15, big_groups=False, resize
                 p = rng.choice(list(dsets)); d = dsets[p]
                 if d["maxdims"] is None:
                     ops.append({"op": "resize", "path": p, "dims": d["dims"]})
+                elif rng.random() < 0.35:       # a zero extent in one dimension: must be refused and change nothing
+                    nd = list(d["dims"]); nd[rng.randrange(len(nd))] = 0
+                    ops.append({"op": "resize", "path": p, "dims": nd})
                 else:
                     nd = [(m + 1 if m != UNLIMITED else 5) for m in d["maxdims"]]
                     if any(m != UNLIMITED for m in d["maxdims"]):
